@@ -10,13 +10,19 @@ def monitors_c02(case, seq, batches, filt, sent, mb, sets=()):
     th = case["throttle_ms"] * 1000
     if sets:
         return monitors_runtime(case, seq, batches, evs, th, sets)
-    R = dict((i, t) for t, i in seq)
+    # receive instants per id in order (identical events share an id)
+    rq = {}
+    for t, i in seq:
+        rq.setdefault(i, []).append(t)
+    R = {}
     prev_end = 0
     for k, (ts, ids, te) in enumerate(batches):
         if not ids:
             continue
         urgent = any(evs[i].get("prio") == "urgent" for i in ids)
-        first = R.get(ids[0], 0)
+        times = [rq[i].pop(0) if rq.get(i) else 0 for i in ids]
+        first = times[0]
+        R = dict(zip(ids, times))        # (last occurrence of an id within this batch)
         if not urgent and ts + 50 < first + th:          # 50 us: rounding of the stamps
             out.append(("C02_lower_bound: batch delivered before the throttle duration had elapsed since its first event",
                         {"first_received_us": first, "delivered_us": ts, "throttle_us": th, "ids": ids}))
@@ -36,11 +42,14 @@ def monitors_runtime(case, seq, batches, evs, th0, sets):
     """throttle changed at run time: a batch without an urgent event is delivered no earlier than first + the throttle in force
     at the moment of delivery (decided when no change is within the ambiguity margin of the delivery)"""
     out = []
-    R = dict((i, t) for t, i in seq)
+    rq = {}
+    for t, i in seq:
+        rq.setdefault(i, []).append(t)
     for ts, ids, te in batches:
+        times = [rq[i].pop(0) if rq.get(i) else 0 for i in ids]
         if not ids or any(evs[i].get("prio") == "urgent" for i in ids):
             continue
-        first = R.get(ids[0], 0)
+        first = times[0]
         if any(abs(T - ts) < MARGIN_US for T, _ in sets):
             continue
         cur = th0
